@@ -55,11 +55,16 @@ func checkC02(p *Program, r *Result) {
 // silentTables: iterator fields (slicemaps) whose Get(...) == nil test does not lead to an error on every path.
 func silentTables(p *Program) map[string]string {
 	out := map[string]string{}
-	for _, name := range []string{"indexedMessageIterator.loadChunk", "indexedMessageIterator.NextInto", "indexedMessageIterator.parseSummarySection"} {
-		fn := p.lookupFunc(pkgMcap, name)
-		if fn == nil {
-			continue
+	// every method of the index-based iterator (the walk and the filters may be split into helpers)
+	for _, fn := range sortedFuncs(func() map[*ssa.Function]bool {
+		m := map[*ssa.Function]bool{}
+		for _, f := range methodsOf(p, pkgMcap, "indexedMessageIterator") {
+			if f.Blocks != nil {
+				m[f] = true
+			}
 		}
+		return m
+	}()) {
 		for _, in := range instrsOf(fn) {
 			c, ok := in.(*ssa.Call)
 			if !ok {
